@@ -5,6 +5,7 @@
      /repo/src/cffi/parse_c_type.h  (_CFFI_F_CHECK_FIELDS, _CFFI_F_PACKED)
      /repo/src/c/_cffi_backend.c    (SF_PACKED, SF_STD_FIELD_POS)
      /repo/src/c/realize_c_type.c   (flag passed to the per-field size check)
+     /repo/src/c/parse_c_type.c     (parse_sequel: array length given by a constant's name; MAX_SSIZE_T)
    Do not edit: this committed copy is the snapshot used when the translator fails. *)
 From Coq Require Import ZArith Bool.
 From Cffi Require Import C12.Spec.
@@ -34,7 +35,8 @@ Definition gen_check_fail_bits : Z := 2.
 
 (* which declarations pass a check_value to _generate_cpy_const *)
 Definition gen_macro_checked : bool := true.
-Definition gen_enumerator_checked : bool := false.
+Definition gen_enumerator_checked : bool := false.          (* enum e { A = 5 }; *)
+Definition gen_partial_enumerator_checked : bool := false.  (* enum e { A = 5, ... }; *)
 
 Definition F_CHECK_FIELDS : Z := 2.
 Definition F_PACKED : Z := 4.
@@ -42,3 +44,23 @@ Definition SF_PACKED : Z := 8.
 Definition SF_STD_FIELD_POS : Z := 128.
 (* realize_c_type.c: detect_custom_layout(ct, SF_STD_FIELD_POS, ctf->ct_size, fld->field_size, ...) *)
 Definition realize_field_check_sflags : Z := SF_STD_FIELD_POS.
+
+(* ---- /repo/src/c/parse_c_type.c parse_sequel(): an array length written as the NAME of an integer
+   constant or enumerator (globals of kind _CFFI_OP_CONSTANT_INT or _CFFI_OP_ENUM).  The statements
+   after `neg = g->address(&gc)`, translated one by one by tools/props/c12_regen.py; neg : int,
+   value = gc.value : unsigned long long.  Source text:
+     if (neg == 0 && gc.value > MAX_SSIZE_T) return parse_error(tok, "integer constant too large"); if (neg == 0 || gc.value == 0) { length = (size_t)gc.value; break; } if (neg != 1) return parse_error(tok, "disagreement about" " this constant's value");
+   then: default: return parse_error(tok, "expected a positive integer constant") *)
+(* #define MAX_SSIZE_T (((size_t)-1) >> 1), size_t = unsigned 64-bit *)
+Definition gen_MAX_SSIZE_T : Z := Z.shiftr (2 ^ 64 - 1) 1.
+
+Definition gen_ps_const_length (neg value : Z) : ps_len :=
+  let v_neg := neg in
+  if ((v_neg =? 0) && (value >? gen_MAX_SSIZE_T)) then PSErr PSTooLarge else
+  if ((v_neg =? 0) || (value =? 0)) then PSLen value else
+  if (negb (v_neg =? 1)) then PSErr PSDisagree else
+  PSErr PSNotPositive.
+
+(* the globals that take this branch *)
+Definition gen_ps_length_from_constant_int : bool := true.
+Definition gen_ps_length_from_enumerator : bool := true.
